@@ -38,7 +38,11 @@ def main(tier, replay):
         "get_viewgram/get_sinogram/get_empty_viewgram with make_num_tangential_poss_odd=true; requests outside every index range to the bin "
         "functions and to the container setters (set_viewgram with a bad view, set_sinogram with a bad axial position, set_segment with a segment "
         "the data do not have, set_segment with a container that has an axial position too many, set_viewgram of a viewgram that is one tangential "
-        "position too wide). "
+        "position too wide); every container setter (set_viewgram, set_sinogram, set_segment by view / by sinogram, set_related_viewgrams) on every "
+        "implementation (ProjDataFromStream in both storage orders, ProjDataInterfile, ProjDataInMemory) given a container made from a clone of the "
+        "ProjDataInfo whose axial / tangential range is of the RIGHT size but shifted by +-1 or +-2..3, or smaller by one at either end, or that has "
+        "one view fewer (setc lines: the Lean model's setterAccepts — the transcribed checks of each setter — answers accept/refuse and, if "
+        "accepted, the slots written; a refusal must change no byte). "
         "Per write: the element slots whose BYTES changed (byte copy of the store diffed before/after; get_offset is never called) + checksum of the "
         "new ON-DISK numbers decoded by the harness + visibility to a second std::ifstream before the harness flushes; per read: the values returned. "
         "Each line is compared for equality with the Lean model's answer (exact: integers and dyadic fractions as rationals; the model keeps the "
@@ -47,7 +51,11 @@ def main(tier, replay):
         "out-of-range requests must throw / return Succeeded::no and change nothing, header round trips with the writer still open: ProjDataInterfile "
         "-> ProjData::read_from_file and write_basic_interfile_PDFS_header on a plain file stream at a NON-ZERO data offset -> ProjData::read_from_file "
         "(geometry incl. arc correction, every time frame, exam info, segment sequence, storage order, number format, byte order, data offset, "
-        "scale factor, values).",
+        "scale factor, values); exam information at its boundary values through both header writers (42 quick / 168 thorough "
+        "exam infos x ProjDataInterfile and write_basic_interfile_PDFS_header -> ProjData::read_from_file, writer still open): energy window [0,650], "
+        "unset, half set (low or high only), high = low, [0,1]; calibration factor 1 / unset / 0 / 1e-6 / 2.5; originating system empty / the scanner's "
+        "name; radionuclide unset / F-18 / C-11; 1-3 time frames starting at 0 / 0.5 / 7 with durations down to 0.25 s; all 4 x 6 (orientation, "
+        "rotation) patient positions including unknown — every field compared on its own after the round trip.",
         extra=dict(input_histogram=info))
     chk.coverage["tie_T_translator"] = tie_t
     chk.assumptions += ["values are small multiples of the scale factor (|k| <= 250 from the generators, <= 20000 after bulk arithmetic; non-negative for "
@@ -63,8 +71,12 @@ def main(tier, replay):
                         "Interfile header text is not modelled (header round trips are oracle-only); SPECT headers, several energy windows and the "
                         "Siemens/ECAT/GE readers are not exercised; get_subset is compared positionally (ProjDataInfoSubsetByView renumbers shifted "
                         "tangential ranges)",
+                        "container setters: a container with a shifted VIEW range is not generated (min_view_num is 0 for every ProjDataInfo and "
+                        "Segment::resize asserts it), only one with fewer views; an unset radionuclide may be read back as the PET default of "
+                        "RadionuclideDB (documented behaviour of get_radionuclide for an empty name); an empty originating system is read back as the "
+                        "scanner's name (the header writer always writes the scanner's name)",
                         "cfg flags read off the implementation by probes (view/tang range checks, flush and scale factor in set_bin_value, axial-size check "
-                        "in set_segment) select the model's branch; an unrepaired branch is reported through the oracle as KNOWN-CANDIDATE"]
+                        "and tangential-range check in set_segment) select the model's branch; an unrepaired branch is reported through the oracle as KNOWN-CANDIDATE"]
     if audit:
         vlib.proof_coverage(chk, audit, "cd lean && lake build StirVerif stirdriver && lake env lean ../build/out/Audit_C02.lean")
     return chk.finish()
